@@ -544,7 +544,7 @@ class Walk:
                 caps["ssa"] = 0
             if r.chance(0.3):
                 caps["ska"] = r.choice([0, 1, 2, 3, 5, 60]) if self.adv else r.choice([0, 2, 3, 5, 60])
-            if r.chance(0.2):
+            if r.chance(0.7 if self.profile == "connects" else 0.2):
                 caps["acid"] = b"srv-assigned"
         self.caps_sent = caps if rc == 0 else {}
         pkt = b.connack(sp, rc, caps)
